@@ -181,7 +181,11 @@ fn mode_model(cx: &mut Ctx, prop: &str, only_unit: Option<usize>, only_input: Op
     let mut per_shard: usize = if cx.thorough { 8_000_000 } else { 800_000 };
     if cx.family == "ds" { per_shard /= 5; } // BYODS programs carry ~10 reader rules each
     if cx.family == "par" { per_shard /= 16; } // three variants per unit, parallel runs cost ~0.3 ms each
-    let budget = (per_shard / nprogs).clamp(if cx.family == "ds" { 3000 } else { 4100 }, 300_000);
+    // the budget counts executions: a unit with many variants gets proportionally fewer inputs
+    let nvariants: usize = (0..cx.units.len()).map(|ui| cx.makes(ui).len()).sum::<usize>().max(1);
+    let many_variants = nvariants > 3 * nprogs;
+    let nprogs = if many_variants { per_shard /= 8; nvariants } else { nprogs };
+    let budget = (per_shard / nprogs).clamp(if cx.family == "ds" { 3000 } else if many_variants { 300 } else { 4100 }, 300_000);
     let max_bits = (usize::BITS - budget.leading_zeros() - 1) as usize;
     let mut inputs_desc = String::new();
     for ui in 0..cx.units.len() {
